@@ -11,6 +11,8 @@ open Vflow Vflow.IpfixIR
 
 def getDataLength (addr : Bytes) (fuel : Nat) : FnSem := Gen.IpfixIR.getDataLength.sem addr [] fuel
 def minRecordLen (addr : Bytes) (fuel : Nat) : FnSem := Gen.IpfixIR.minRecordLen.sem addr [] fuel
+def decodeData (addr : Bytes) (fuel : Nat) : FnSem :=
+  Gen.IpfixIR.decodeData.sem addr [("getDataLength", getDataLength addr fuel)] fuel
 
 /-! ## how the model's results read as Go result lists -/
 
@@ -18,5 +20,11 @@ def minRecordLen (addr : Bytes) (fuel : Nat) : FnSem := Gen.IpfixIR.minRecordLen
 def lenResult : Except Err Nat → List V
   | .ok n => [.int n, .nil]
   | .error e => [.int 0, .err ⟨false, e⟩]
+
+/-- `([]DecodedField, error)` of `decodeData`: the record and `nil`, or `nil` and the error — wrapped in
+`nonfatalError{…}` exactly for the classes the model treats as non-fatal (`Ipfix.nonfatalErr`) -/
+def recResult : Except Err Record → List V
+  | .ok fs => [.drec fs, .nil]
+  | .error e => [.nil, .err ⟨Ipfix.nonfatalErr e, e⟩]
 
 end Vflow.IpfixProg
